@@ -539,7 +539,13 @@ pub fn run(cases: &[Value], trace: &mut Trace, seed: u64) {
     for (k, case) in cases.iter().enumerate() {
         let mut rng = Rng::new(seed ^ (k as u64).wrapping_mul(0x51ed_27));
         let watch_threads = thread_count();
-        if case["vring"].as_str() == Some("mutex") {
+        if case["conc"].as_bool() == Some(true) {
+            if case["vring"].as_str() == Some("mutex") {
+                crate::daemon_conc::run_case::<VringMutex<GM>>(case, trace);
+            } else {
+                crate::daemon_conc::run_case::<VringRwLock<GM>>(case, trace);
+            }
+        } else if case["vring"].as_str() == Some("mutex") {
             crate::daemon_seq::run_case::<VringMutex<GM>>(case, trace, &mut rng);
         } else {
             crate::daemon_seq::run_case::<VringRwLock<GM>>(case, trace, &mut rng);
